@@ -12,6 +12,9 @@ CLAIMED = {
  "C02": ("proptest-generated recipes executed by a three-party executor model (per-party values, values cross only at Send nodes); oracle = plaintext value at every listed output party / share consistency",
          "Random search with shrinking over the same recipes/configurations as C01, executed by three separate simulated parties: own inputs + generated junk for everything not owned, three independent random tapes, values replaced only at Send(s,r) nodes. Oracle: each listed output party holds exactly the plaintext value; for a shared output the replicated slots agree between neighbours and reconstruct the value; repeated with different junk and tapes.",
          "Trusted: the execution model of reference/runtime.md as implemented in walk.rs::run3 (the proprietary runtime is unavailable); plaintext SimpleEvaluator as reference."),
+ "C04": ("proptest-generated recipes; structural invariants over compiler output and over the optimiser's old-to-new node mapping (no evaluation)",
+         "Random search with shrinking. (i/iii) MPC recipes compiled stage by stage (prepare_context, prepare_for_mpc_evaluation, optimize_context) in all inline modes: PRF counters are pairwise distinct and non-zero before and after the final optimiser; (ii) generated inlined graphs containing Random/RandomPermutation/PRF/PermutationFromPRF nodes with colliding counters, duplicated nodes, constants and dangling parts: under optimize_context's mapping no randomising/PRF node becomes a Constant, two are never merged, none is duplicated or invented, each surviving user still depends on the image of its randomising dependency (a node is dropped only when no surviving node depends on it).",
+         "Trusted: the mapping returned by optimize_context is what the pass actually did (its value-consistency is C06's subject). PRF nodes keyed by a Constant are outside the domain."),
  "C13": ("proptest generated integers/values vs reference byte encoder and structural layout predicate; JSON round-trip oracle",
          "Random search with shrinking over (scalar type x source integer type x boundary-heavy integers x ragged bit arrays x nested container types): read-back == integers mod 2^w with sign extension, bytes == the harness's own little-endian/LSB-first encoder, check_type <=> independent layout predicate (matching and near-miss layouts), JSON text parses back to an equal typed value. Sampling, not proof.",
          "Trusted: the harness's reference encoder/decoder (hv.rs) and layout predicate; serde_json itself. Two JSON format limitations are recorded as known findings and excluded by signature."),
